@@ -13,6 +13,7 @@ func main() {
 		fmt.Println(pkg.Closures(map[string]int{"only": 5}))
 		fmt.Println(pkg.NonString(map[int]string{1: "a", 2: "b"}, nil))
 		fmt.Println(pkg.Assign(map[string]int{"ab": 2}))
+		fmt.Println(pkg.LoopVar([]int{1, 2, 3})) // 9 with shared loop variables, 6 with per-iteration ones
 		fmt.Println(pkg.Insert(map[string]int{"a": 1, "b": 2}))
 		fmt.Println(pkg.Locks())
 		fmt.Println(pkg.Clock())
